@@ -15,14 +15,16 @@ ENTRY = dict(
                    "every joint map with p >= 1/N is EXACT with weight N*p (N <= 1e14); no returned key has probability zero; infinite "
                    "budget = exactly the maps with p >= 1e-14, weight p; N < 1 / NaN / -inf refused; the weights sum to at most N with a "
                    "deficit bounded by N*1e-14*(#prefixes+1), and to N exactly with at most ceil(N) entries when no input or table "
-                   "entry lies in the cut-off band (0,1e-14]; for every joint map the expected weight (expectation functional using only "
-                   "E[count_i]=n*p_i) equals N*p under the same hypothesis, EXCEPT in the branch where the single-leftover shortcut "
-                   "fires (partial; full statement kept open in Properties/C04.v). The line-by-line step machine of the DFS generator is "
-                   "proved equal to the recursive specification only on a FINITE domain (40494 inputs x 6 thresholds, bound in the "
-                   "statement); the unbounded refinement is open. Closed under the global context. The model contains the repaired "
-                   "behaviour of finding F9. Model (specification AND step machine, permutation wrapper, weights, draw-tape sampler, "
-                   "expectation functional, final sort) is run against the implementation on >1000 generated cases per run, the "
-                   "sequence of generator yields included; for samples_needed<=3 every answer sequence of the oracle is enumerated.",
+                   "entry lies in the cut-off band (0,1e-14]; for EVERY joint map the expected weight (expectation functional using only "
+                   "E[count_i]=n*p_i) equals N*p under the same hypothesis (telescoping product of the renormalised tables; the "
+                   "single-leftover shortcut included); the line-by-line step machine of the DFS generator, run with fuel "
+                   "2*(#prefixes)+2, yields the sequence of the recursive specification for all inputs (numbers up to Qeq); the public "
+                   "function's final sort is a sorted rearrangement with distinct keys. Closed under the global context. The model "
+                   "contains the repaired behaviour of finding F9. Model (specification AND step machine, permutation wrapper, weights, "
+                   "draw-tape sampler, expectation functional, final sort) is run against the implementation on >1000 generated cases "
+                   "per run, the sequence of generator yields included; for samples_needed<=3 every answer sequence of the oracle is "
+                   "enumerated. NOT proved: that the three remaining `assert`s of _generate_qpd_weights/_populate_samples are "
+                   "unreachable (the model returns Crashed there; never observed).",
         level_note=STD_NOTE + "No axioms. Modelling assumptions: O-choice (numpy.random.choice(range(n),k,p) returns k indices, each of "
                    "positive probability; E[count_i]=k*p_i; different calls independent) -- the support part is monitored on every case, "
                    "the law enters only through the expectation functional; np.argsort(cp)[::-1] returns SOME descending permutation "
@@ -40,6 +42,8 @@ ENTRY = dict(
             "drops maps with 1/N <= p < 1e-14 (non-vacuity example c04_ex_bound_needed); the property's range is N <= 1e6 or infinity",
             "the model has the REPAIRED F9 behaviour (`if samples_needed < 1: return retval`); on the unrepaired /repo the implementation "
             "raises AssertionError on such inputs and the run reports a VIOLATION",
-            "c04_unbiased_partial excludes the single-leftover shortcut branch; c04_machine_refines_spec_fin is a finite-domain theorem",
+            "c04_machine_refines_spec compares numbers with Qeq (the machine's first running product is probs[0][0], the "
+            "specification's 1*probs[0][0]); the theorems are stated on the specification, the machine is tied to it by this theorem "
+            "and both are compared with the implementation's yield sequence",
         ],
     )
